@@ -123,3 +123,31 @@ func genBursts(g *Gen, p *Plan, keys []string, epochs int, burstLo, burstHi int,
 		}
 	}
 }
+
+// swarm applies, after a profile's own generator, the disturbances every deployment meets and
+// no property may depend on the absence of: clients that go away while their request is parked
+// or in flight (pCancel: share of plans; a tenth of their untagged requests), and a store that
+// fails, forgets or dawdles without corrupting anything (pStore: share of the plans that have a
+// store and no fault plan of their own).
+func swarm(g *Gen, p *Plan, pCancel, pStore float64) *Plan {
+	if g.p(pCancel) {
+		for i := range p.Ops {
+			op := &p.Ops[i]
+			if op.Kind == OpReq && op.Tag == "" && g.p(0.1) {
+				op.Cancellable = true
+			}
+		}
+	}
+	hasStore := false
+	for _, c := range p.Configs {
+		for _, cc := range c.Caches {
+			if cc.Store != "" {
+				hasStore = true
+			}
+		}
+	}
+	if hasStore && len(p.StoreFaults) == 0 && g.p(pStore) {
+		p.StoreFaults = storeFaults(g, 120, pick(g, 0.1, 0.3), "err", "notfound", "delay", "drop")
+	}
+	return p
+}
